@@ -5,10 +5,10 @@
    coordinates are rationals (every binary64 is one). *)
 From Coq Require Import List Arith Bool ZArith QArith.
 Import ListNotations.
-Require Import Base.C11_Unique Model.C11_Topo Proofs.C11_TopoProofs.
+Require Import Base.Corr Base.C11_Unique Model.C11_Topo Proofs.C11_TopoProofs Proofs.C11_EquivProofs.
 Require Import Model.C12_Refine Model.C12_Geom Model.C13_Adaptive.
 Require Import Proofs.C12_RefineProofs Proofs.C12_GeomProofs Proofs.C12_BoundaryProofs Proofs.C13_AdaptiveProofs.
-Require Import Model.C12_Global Proofs.C12_GlobalProofs Proofs.C12_InvProofs.
+Require Import Model.C12_Global Proofs.C12_GlobalProofs Proofs.C12_InvProofs Proofs.C12_Face3Proofs.
 Require Import Gen.C12Gen Dyn.C12Tie.
 Local Open Scope nat_scope.
 
@@ -444,6 +444,110 @@ Proof.
     exact (tet_tiles_cover Covers tet_W (tet_family c) HP (H c Hc)).
 Qed.
 Print Assumptions C12_children_tile_parent_given_principle.
+
+(* ---------------------------------------------------------------------------------------------
+   GLOBAL conformity at FACE level, tetrahedra, with the tables of Mesh.build_entities (C11: t2f AND t2e, facets / edges keyed by
+   sorted vertex tuples).  Template level (all three diagonal choices): the faces of the eight children are, for every parent
+   face, exactly four triangles — three corner triangles {V, E, E'} and the middle one {E, E', E''} over the nodes of the face's
+   three edges — plus interior faces shared by two children.  Mesh level: in EVERY cell k containing the face f (as its local
+   face a) those four triangles, with the library's numbering offE + t2e[.], are a function of f alone: of its vertex tuple
+   facets[f] and the positions of its three vertex pairs in mesh.edges.  Hence two tetrahedra sharing a face leave the same
+   four faces of the refined mesh on it: no hanging node / edge.  All meshes whose cells have pairwise distinct vertices. *)
+Theorem C12_global_no_hanging_nodes_tet :
+  forallb (fun c => trace3_ok gen_tet_rfacets gen_tet_redges (tet_family c)) [0; 1; 2] = true /\
+  forall cells oE k a,
+    Forall (fun c => NoDup c /\ length c = 4) cells -> k < length cells -> a < length gen_tet_rfacets ->
+    let tb := c11_tables3 cells gen_tet_rfacets gen_tet_redges in
+    forall e, In e (resolved_face_pieces gen_tet_rfacets gen_tet_redges oE (cell_ctx tb k) a)
+              <-> In e (face_trace3 (tb_edges tb) oE (nth (nth a (cf (cell_ctx tb k)) 0) (tb_facets tb) [])).
+Proof.
+  split; [exact tet_trace3_ok|]. intros cells oE k a Hc.
+  exact (face_pieces_global cells gen_tet_rfacets gen_tet_redges 4 tet_face_edges_ok Hc oE k a).
+Qed.
+Print Assumptions C12_global_no_hanging_nodes_tet.
+
+Theorem C12_shared_face_shares_pieces_tet : forall cells oE k1 a1 k2 a2,
+  Forall (fun c => NoDup c /\ length c = 4) cells ->
+  k1 < length cells -> a1 < length gen_tet_rfacets -> k2 < length cells -> a2 < length gen_tet_rfacets ->
+  let tb := c11_tables3 cells gen_tet_rfacets gen_tet_redges in
+  nth a1 (cf (cell_ctx tb k1)) 0 = nth a2 (cf (cell_ctx tb k2)) 0 ->
+  forall e, In e (resolved_face_pieces gen_tet_rfacets gen_tet_redges oE (cell_ctx tb k1) a1)
+            <-> In e (resolved_face_pieces gen_tet_rfacets gen_tet_redges oE (cell_ctx tb k2) a2).
+Proof.
+  intros cells oE k1 a1 k2 a2 Hc.
+  exact (shared_face_same_pieces cells gen_tet_rfacets gen_tet_redges 4 tet_face_edges_ok Hc oE k1 a1 k2 a2).
+Qed.
+Print Assumptions C12_shared_face_shares_pieces_tet.
+
+(* induction over k closed with the distinct-vertices invariant: at EVERY level of refined(k) of a tetrahedral mesh the next
+   refinement cuts every face alike from all cells containing it *)
+Theorem C12_refined_k_conforming_3d : forall k p t, cells_ok 4 (length p) t ->
+  let r := refined_k tet_step tet_tabs k p t in
+  cells_ok 4 (length (fst r)) (snd r) /\
+  forall oE c a, c < length (snd r) -> a < length gen_tet_rfacets ->
+    let tb := c11_tables3 (snd r) gen_tet_rfacets gen_tet_redges in
+    forall e, In e (resolved_face_pieces gen_tet_rfacets gen_tet_redges oE (cell_ctx tb c) a)
+              <-> In e (face_trace3 (tb_edges tb) oE (nth (nth a (cf (cell_ctx tb c)) 0) (tb_facets tb) [])).
+Proof.
+  intros k p t H r. pose proof (refined_k_cells_ok tet_step tet_tabs 4 tet_step_ok k p t H) as Hk. split; [exact Hk|].
+  intros oE c a. exact (face_pieces_global (snd r) gen_tet_rfacets gen_tet_redges 4 tet_face_edges_ok (cells_ok_distinct _ _ _ Hk) oE c a).
+Qed.
+Print Assumptions C12_refined_k_conforming_3d.
+
+(* hexahedra.  Template level: the faces of the eight children are, for every parent face, exactly four quadrilaterals
+   {V, E, F, E'} (corner, the nodes of its two edges in the face, the face node) plus interior faces shared by two children.
+   Mesh level, under the conformity hypothesis of C11_f2e_numbers_mesh_edges_hex (every cell lists the vertices of each face in
+   the cyclic order of the stored facet column up to rotation / reversal — what conforming hexahedral meshes satisfy; without it
+   "the same four vertices" does not determine which pairs are edges): in EVERY cell containing the face f the four pieces, with
+   the library's numbering offE + t2e[.] and offF + t2f[.], are a function of f alone (its stored vertex tuple, the positions of
+   its four sides in mesh.edges, its number), so two hexahedra sharing a face leave the same four faces on it.
+   NOT closed by induction over k: that the refined mesh again satisfies the cyclic-order hypothesis is not proved (the
+   distinct-vertices invariant is: C12_refined_k_distinct_vertices_3d). *)
+Theorem C12_global_no_hanging_nodes_hex :
+  trace4_ok gen_hex_rfacets gen_hex_redges gen_hex_templates = true /\
+  forall cells oE oF k a,
+    Forall (fun c => NoDup c /\ length c = 8) cells ->
+    (forall s e, s < length gen_hex_rfacets -> e < length cells ->
+       dihedral (nth (t2f_at cells gen_hex_rfacets s e) (entities false cells gen_hex_rfacets) [])
+                (slotv (nth s gen_hex_rfacets []) (nth e cells []))) ->
+    k < length cells -> a < length gen_hex_rfacets ->
+    let tb := c11_tables3 cells gen_hex_rfacets gen_hex_redges in
+    let f := nth a (cf (cell_ctx tb k)) 0 in
+    forall e, In e (resolved_qface_pieces gen_hex_rfacets gen_hex_redges oE oF (cell_ctx tb k) a)
+              <-> In e (face_trace4 (tb_edges tb) oE oF f (nth f (entities false cells gen_hex_rfacets) [])).
+Proof.
+  split; [exact hex_trace4_ok|]. intros cells oE oF k a Hc Hconf.
+  exact (qface_pieces_global cells gen_hex_rfacets gen_hex_redges 8 hex_qface_edges_ok Hc Hconf oE oF k a).
+Qed.
+Print Assumptions C12_global_no_hanging_nodes_hex.
+
+Theorem C12_shared_face_shares_pieces_hex : forall cells oE oF k1 a1 k2 a2,
+  Forall (fun c => NoDup c /\ length c = 8) cells ->
+  (forall s e, s < length gen_hex_rfacets -> e < length cells ->
+     dihedral (nth (t2f_at cells gen_hex_rfacets s e) (entities false cells gen_hex_rfacets) [])
+              (slotv (nth s gen_hex_rfacets []) (nth e cells []))) ->
+  k1 < length cells -> a1 < length gen_hex_rfacets -> k2 < length cells -> a2 < length gen_hex_rfacets ->
+  let tb := c11_tables3 cells gen_hex_rfacets gen_hex_redges in
+  nth a1 (cf (cell_ctx tb k1)) 0 = nth a2 (cf (cell_ctx tb k2)) 0 ->
+  forall e, In e (resolved_qface_pieces gen_hex_rfacets gen_hex_redges oE oF (cell_ctx tb k1) a1)
+            <-> In e (resolved_qface_pieces gen_hex_rfacets gen_hex_redges oE oF (cell_ctx tb k2) a2).
+Proof.
+  intros cells oE oF k1 a1 k2 a2 Hc Hconf.
+  exact (shared_qface_same_pieces cells gen_hex_rfacets gen_hex_redges 8 hex_qface_edges_ok Hc Hconf oE oF k1 a1 k2 a2).
+Qed.
+Print Assumptions C12_shared_face_shares_pieces_hex.
+
+(* the cyclic-order hypothesis is satisfiable: two hexahedra sharing a face, the second listing it rotated (the instance of C11) *)
+Example C12_hex_conformity_instance :
+  let cells := [[0; 1; 2; 3; 4; 5; 6; 7]; [8; 9; 10; 0; 11; 1; 2; 4]] in
+  forallb (fun s => forallb (fun e =>
+     let q := nth (t2f_at cells gen_hex_rfacets s e) (entities false cells gen_hex_rfacets) [] in
+     let q' := slotv (nth s gen_hex_rfacets []) (nth e cells []) in
+     match q with [a; b; c; d] => existsb (nats_eqb q') [[a; b; c; d]; [b; c; d; a]; [c; d; a; b]; [d; a; b; c];
+                                                        [d; c; b; a]; [c; b; a; d]; [b; a; d; c]; [a; d; c; b]] | _ => false end)
+     (seq 0 2)) (seq 0 6) = true.
+Proof. vm_compute. reflexivity. Qed.
+Print Assumptions C12_hex_conformity_instance.
 
 (* second-order classes: MeshTri2 / MeshQuad2 / MeshHex2 refine through from_mesh (tags dropped) and Mesh.refined re-creates the
    subdomains with the generic fallback, MeshTet2 (after N1) refines as MeshTet1 carrying the subdomains: in every case the
